@@ -58,6 +58,15 @@ def native_check(kind, n, env=None, seed=0):
         if not torch.equal(space, keep):
             fails.append((name + ": samples modified", None))
             space = keep.clone()
+    # one value per row *in the order of the rows*: the whole basis in a shuffled order (no repeats) and with repeats
+    perm = torch.tensor(rng.permutation(2 ** n))
+    rep = torch.tensor(rng.integers(0, 2 ** n, size=(2 ** n + 3,)))
+    for name, o, O in obs:
+        base = o.apply(st, keep.clone())
+        for tag, idx in (("shuffled distinct rows", perm), ("rows with repeats", rep)):
+            got = o.apply(st, keep[idx].clone())
+            if tuple(got.shape) != (len(idx),) or not torch.allclose(got, base[idx], rtol=1e-10, atol=1e-12):
+                fails.append((name + ": value of a row depends on the batch it is in / on the row order (%s)" % tag, None))
     for L, cls in (("X", SigmaX), ("Y", SigmaY), ("Z", SigmaZ)):
         a, s = cls(absolute=True).apply(st, space), cls().apply(st, space)
         if not torch.allclose(a, s.abs()):
